@@ -79,6 +79,11 @@ fn main() {
             let mut log = Log::to_path(&out);
             mg::gen_scenarios(seed, args.num("segments", 60) as usize, args.flag("stable"), &mut log);
         }
+        "mg-accover" => {
+            let mut log = Log::to_path(&out);
+            let scripts = read_ndjson(&args.str("in", ""));
+            mg::accover_replay(&scripts, args.num("stride", 1) as usize, args.num("offset", 0) as usize, &mut log, seed);
+        }
         "mg-cover" => {
             let mut log = Log::to_path(&out);
             let scripts = read_ndjson(&args.str("in", ""));
